@@ -576,12 +576,12 @@ Definition wf_opb (d : wdecl) (o : op) : bool :=
 Definition wf_declb (d : wdecl) : bool := forallb (fun a => (da_id a <? 2^8)%N) (wd_archs d).
 Definition wf_case (d : wdecl) (ops : list op) : bool := wf_declb d && forallb (wf_opb d) ops.
 
-(** The only state-dependent side condition: a preset must not lower a slot generation. *)
+(** The only state-dependent side condition: a preset must not lower a slot generation or the archetype version. *)
 Definition hist_ok_step (st : rstate) (o : op) : bool :=
   match o with
   | OPreset a sv av =>
       match cur_world st with
-      | Some w => match w !! a with Some s => forallb (fun x => (s_ver x <=? sv)%N) (slots s) | None => true end
+      | Some w => match w !! a with Some s => forallb (fun x => (s_ver x <=? sv)%N) (slots s) && (version s <=? av)%N | None => true end
       | None => true
       end
   | _ => true
